@@ -809,7 +809,8 @@ func (s *State) extendFunctionEnv(
 		// By definition function parameters are local copies, deref argument values:
 		pval := object.Value(args[paramIdx])
 		needVariable := true
-		if !s.NoReg && pval.Type() == object.INTEGER {
+		// (constant names go through the variable path and its 'attempt to change constant' check)
+		if !s.NoReg && pval.Type() == object.INTEGER && !object.Constant(param.Value().Literal()) {
 			// We will release all these registers just by returning/dropping the env.
 			_, nbody, ok := setupRegister(env, param.Value().Literal(), pval.(object.Integer).Value, newBody)
 			if ok {
@@ -962,7 +963,7 @@ func (s *State) evalForIntegerReg(fe *ast.ForExpression, start *int64, end int64
 	newBody = fe.Body
 	if loopReg != nil {
 		ptr = loopReg.Ptr()
-	} else if name != "" && !s.NoReg {
+	} else if name != "" && !s.NoReg && !object.Constant(name) {
 		var ok bool
 		register, newBody, ok = setupRegister(s.env, name, int64(startValue), fe.Body)
 		if ok {
